@@ -32,7 +32,7 @@ def law(law, runner, vals, **kw):
     if law == "map-affine":
         n, k = kw["n"], vals["k"]
         l = lst("l", n)
-        kd, r = _run("l.map(x, x * 2 + k)", runner, {"l": cel_list(l), "k": I(k)})
+        kd, r = _run("l.map(x, x * 2 + k)", runner, {"l": cel_list(l), "k": I(k), "x": I(k)})
         exp, err = [], False
         for x in l:
             if not _in64(x * 2) or not _in64(x * 2 + k):
@@ -54,7 +54,7 @@ def law(law, runner, vals, **kw):
     if law == "filter-gt":
         n, k = kw["n"], vals["k"]
         l = lst("l", n)
-        kd, r = _run("l.filter(x, x > k)", runner, {"l": cel_list(l), "k": I(k)})
+        kd, r = _run("l.filter(x, x > k)", runner, {"l": cel_list(l), "k": I(k), "x": I(k)})
         exp = [x for x in l if x > k]
         if kd != "value" or [int(x) for x in r] != exp:
             return fail(f"expected {exp}, got {kd} {r!r}")
@@ -62,7 +62,7 @@ def law(law, runner, vals, **kw):
     if law == "exists-one":
         n, k = kw["n"], vals["k"]
         l = lst("l", n)
-        kd, r = _run("l.exists_one(x, x == k)", runner, {"l": cel_list(l), "k": I(k)})
+        kd, r = _run("l.exists_one(x, x == k)", runner, {"l": cel_list(l), "k": I(k), "x": I(7)})
         exp = sum(1 for x in l if x == k) == 1
         if kd != "value" or bool(r) != exp:
             return fail(f"expected {exp}, got {kd} {r!r}")
@@ -72,7 +72,7 @@ def law(law, runner, vals, **kw):
         l = lst("l", n)
         exp = k in l
         for src in ("k in l", "l.exists(y, y == k)", "l.contains(k)"):
-            kd, r = _run(src, runner, {"l": cel_list(l), "k": I(k)})
+            kd, r = _run(src, runner, {"l": cel_list(l), "k": I(k), "y": I(k)})
             if kd != "value" or bool(r) != exp:
                 return fail(f"`{src}` expected {exp}, got {kd} {r!r}")
         return True, "ok"
@@ -169,9 +169,27 @@ def law(law, runner, vals, **kw):
         return True, "ok"
     if law == "matches-invalid":
         s = ct.StringType(chr(vals["s_c0"]))
-        for src in ("s.matches('(')", "matches(s, '[a')", "s.matches('a{2,1}')"):
+        for src in ("s.matches('(')", "matches(s, '[a')", "s.matches('a{2,1}')", "s.matches('?')", "s.matches('?a')", "s.matches('*a')", "matches(s, '+')",
+                    "s.matches('a(?P<n')", "s.matches('[z-a]')", "s.matches(')')"):
             kd, r = _run(src, runner, {"s": s})
             if kd != "error":
                 return fail(f"`{src}`: invalid pattern must be an error, got {kd} {r!r}")
         return True, "ok"
     raise ValueError(law)
+
+
+def matches_grid(pattern, subjects):
+    """enumeration: `s.matches(p)` against Python's re.search on a fragment where RE2 and re agree"""
+    import re
+    from celpy import celtypes as ct
+    lit = pattern.replace("\\", "\\\\").replace("'", "\\'")
+    for runner in ("interp", "compiled"):
+        p1 = make_program(f"s.matches('{lit}')", runner)
+        p2 = make_program(f"matches(s, '{lit}')", runner)
+        for s in subjects:
+            want = re.search(pattern, s) is not None
+            for prog in (p1, p2):
+                kd, r = evaluate_outcome(lambda: prog.evaluate({"s": ct.StringType(s)}))
+                if kd != "value" or bool(r) != want:
+                    return False, f"{s!r}.matches({pattern!r}) under {runner}: expected {want}, got {kd} {r!r}"
+    return True, "ok"
